@@ -83,8 +83,9 @@ def cases(tier, seed):
         if thermal and sp["weather"]["kind"] == "synth" and i % 2 == 0:
             # warm and cool years, default latest harvest date: whatever the model derives that
             # date from must not be something the end date or later weather can change
-            sp["weather"].setdefault("params", {})["interannual"] = float(gen.pick(rng, [2.5, 4.0]))
+            sp["weather"].setdefault("params", {})["interannual"] = float(gen.pick(rng, [4.0, 6.0]))
             sp["crop"]["harvest"] = None
+            long_ext = True
         if i % 6 == 3:
             # "constant at the level of the first simulated year": nothing later may enter that level
             sp["co2"] = {"constant_auto": True}
@@ -92,7 +93,9 @@ def cases(tier, seed):
             # one day of extreme evaporative demand in the first season: anything derived from
             # statistics of the whole record (which the end date and later weather change) shows
             gen.et0_spike(rng, sp)
-        out.append({"spec": sp, "seed": int(rng.integers(0, 2 ** 31 - 1)), "force_kind": force_kind})
+        out.append({"spec": sp, "seed": int(rng.integers(0, 2 ** 31 - 1)), "force_kind": force_kind,
+                    "long_ext": bool(locals().get("long_ext"))})
+        long_ext = False
     return out
 
 
@@ -245,7 +248,9 @@ def run_case(case):
     # ---- (4) extension of the end date -------------------------------------------------------
     if len(B.summary) and spec["weather"]["kind"] == "synth":
         ext = int(rng.choice([1, 2, 30, 200, 365, 800, 1095]))
-        if rng.random() < 0.4:
+        if case.get("long_ext"):
+            ext = int(rng.choice([730, 1095, 1461]))      # several more seasons enter the window
+        elif rng.random() < 0.4:
             # the new end date falls on / next to a planting date
             e0 = S.d(spec["end"])
             pm, pd_ = [int(x) for x in spec["crop"]["planting"].split("/")]
